@@ -191,13 +191,13 @@ def run(facts, tier):
     return res
 
 
-def c14_8(facts, res):
+def c14_8(facts, res, rule="C14-8"):
     """Items cache their key together with the ordering version (HasContext::order re-reads the key when the cached version
     is older).  Every operation that shifts DocumentOrder.order therefore has to bump DocumentOrder.version on the same
     path, otherwise items behind the shift keep a stale cached key.  (push appends and shifts nothing.)"""
     import guards
     import staleidx
-    st = res.rule("C14-8", instances=0)
+    st = res.rule(rule, instances=0)
     for f in facts.fns.values():
         if not f["path"].startswith("xml_info::DocumentOrder::") or "body" not in f or f.get("parent"):
             continue
@@ -217,7 +217,7 @@ def c14_8(facts, res):
                              and x["l"].get("basety") == "DocumentOrder" for later in stmts[i + 1:] for x in walk(later))
                 res.oblige(1, bumped)
                 if not bumped:
-                    res.add(Finding("C14-8", f["path"].split("::")[-1] + "|" + shifts[0]["m"], "%s shifts the order vector (Vec::%s) without "
+                    res.add(Finding(rule, f["path"].split("::")[-1] + "|" + shifts[0]["m"], "%s shifts the order vector (Vec::%s) without "
                                     "bumping `version`: the keys cached by the items behind the shift stay valid in their eyes and are "
                                     "now off by one" % (f["path"], shifts[0]["m"]), f["file"], shifts[0].get("ln"), {}))
     if st["instances"] < 3:
